@@ -10,17 +10,19 @@
 (* One initial state per case; the lemma is evaluated with its single successor.*)
 EXTENDS MsgSign
 
-CONSTANTS Mode, ESet, RMax
+CONSTANTS Mode, ESet, DSet, RMax
 VARIABLES a, b, c, ph, holds
 vars == <<a, b, c, ph, holds>>
 
 EAll == 1..(N + 2)
 EFew == {1, 2, N - 1, N, N + 1}
+DAll == Scalars
+DFew == {1, 2, 3, (N - 1) \div 2, (N + 1) \div 2, N - 2, N - 1}
 
 ASSUME CurveOk == Cyclic /\ InvOk /\ P % 4 = 3 /\ PointsForXOk
 
 Init == /\ ph = 0 /\ holds = TRUE
-        /\ IF Mode = "sign" THEN a \in Scalars /\ b \in ESet /\ c \in Scalars
+        /\ IF Mode = "sign" THEN a \in DSet /\ b \in ESet /\ c \in Scalars
            ELSE a \in ESet /\ b \in 0..RMax /\ c \in 0..(N + 1)
 
 \* ------------------------------------------------------------ Mode = "sign": a = d, b = e, c = k
@@ -40,10 +42,12 @@ SignLemmas(d, e, k) ==
          /\ Len(bytes) = 65 /\ Len(text) = 88 /\ text[88] = "=" /\ text[87] # "="
          /\ B64Decode(text) = [ok |-> TRUE, v |-> bytes]
          /\ bytes[1] = 27 + sg.recid + (IF comp THEN 4 ELSE 0)
-         /\ VerifyText(KeyOf(Q), text, e) /\ VerifyText(AddrOf(Q, comp), text, e) /\ ~VerifyText(AddrOf(Q, ~comp), text, e)
-         /\ \A d2 \in Scalars : VerifyCompact(KeyOf(PubKey(d2)), bytes, e) <=> (d2 = d)  \* for no other key
-         /\ \A d2 \in Scalars, c2 \in BOOLEAN :
-               VerifyCompact(AddrOf(PubKey(d2), c2), bytes, e) <=> (d2 = d /\ c2 = comp)  \* for no other address
+         /\ VerifyText(KeyOf(Q), text, e) /\ VerifyCompact(AddrOf(Q, comp), bytes, e) /\ ~VerifyCompact(AddrOf(Q, ~comp), bytes, e)
+         /\ \A rc \in {RecoverCompact(bytes, e)} :
+              /\ rc = [ok |-> TRUE, Q |-> Q, comp |-> comp, cls |-> "ok"]
+              /\ \A d2 \in Scalars : VerifyRc(KeyOf(PubKey(d2)), rc) <=> (d2 = d)              \* for no other key
+              /\ \A d2 \in Scalars, c2 \in BOOLEAN :
+                    VerifyRc(AddrOf(PubKey(d2), c2), rc) <=> (d2 = d /\ c2 = comp)               \* for no other address
 
 \* ------------------------------------------------------------ Mode = "recover": a = e, b = r, c = s
 RecoverLemmas(e, r, s) ==
